@@ -10,6 +10,7 @@ use crate::lower;
 use crate::progcheck;
 use cao_lang::compiler::{compile, CompileOptions};
 use cao_lang::prelude::*;
+use cao_lang::verif;
 use cvx_core::engine::{Check, CheckInfo, ChunkResult, Tier, Violation};
 use cvx_core::gen_basic::Family;
 use cvx_core::gen_reenter::{FReenter, FTryCall};
@@ -25,6 +26,7 @@ pub struct C18;
 #[derive(Default)]
 struct H {
     calls: Vec<(String, Vec<String>)>,
+    notes: Vec<String>,
 }
 
 type HR = Result<Value, ExecutionErrorPayload>;
@@ -125,8 +127,16 @@ fn t4<A: Param, B: Param, C_: Param, D: Param>(vm: &mut Vm<H>, a: A, b: B, c: C_
 }
 /// host function that hands its argument to a native function value through run_function
 fn via_run_function(vm: &mut Vm<H>, f: Value, a: Value) -> HR {
+    let before = (verif::stack(&vm.runtime_data).len(), verif::frames(&vm.runtime_data).len());
     vm.stack_push(a)?;
-    vm.run_function(f)
+    let r = vm.run_function(f);
+    // whether the callee returned or failed (in its body, or already at the conversion of its
+    // argument): the pushed argument is consumed and the stacks are what they were
+    let after = (verif::stack(&vm.runtime_data).len(), verif::frames(&vm.runtime_data).len());
+    if after != before {
+        vm.auxiliary_data.notes.push(format!("run_function {}: (value stack, call stack) {before:?} before the argument was pushed, {after:?} afterwards", if r.is_ok() { "returned" } else { "failed" }));
+    }
+    r
 }
 
 macro_rules! rot {
@@ -319,6 +329,9 @@ fn run_tcase(c: &TCase) -> Option<(String, String)> {
     let must_reject: Vec<usize> = exps.iter().enumerate().filter(|(_, e)| **e == Expect::Reject).map(|(i, _)| i + 1).collect();
     let calls = &vm.auxiliary_data.calls;
     let g = |n: &str| vm.read_var_by_name(n, &prog.variables);
+    if let Some(n) = vm.auxiliary_data.notes.first() {
+        return Some((format!("typed:stacks-after-run_function:{}", if r.is_ok() { "ok" } else { "failed" }), format!("{label}: {n}")));
+    }
     match r {
         Ok(()) => {
             if !must_reject.is_empty() {
